@@ -63,6 +63,12 @@ impl Body for ScriptBody {
     }
 }
 
+/// A waker that counts wake-ups: a poll that returns Pending without the waker having been woken during that poll has
+/// arranged no wake-up at all (the scripted sources wake immediately when they are the ones that are pending), i.e. the
+/// task would never be polled again.
+struct CountWake(AtomicUsize);
+impl std::task::Wake for CountWake { fn wake(self: Arc<Self>) { self.0.fetch_add(1, Ordering::SeqCst); } fn wake_by_ref(self: &Arc<Self>) { self.0.fetch_add(1, Ordering::SeqCst); } }
+
 fn lim(v: &Value) -> Option<usize> { let n = v.as_i64().unwrap_or(-1); if n < 0 { None } else { Some(n as usize) } }
 
 fn pmsg(v: &Value) -> TestMsg {
@@ -74,18 +80,20 @@ fn status_json(s: &Status) -> Value { json!({"code": s.code() as i32, "msg": str
 
 /// Poll an http body to exhaustion (past is_end_stream) and record each frame.
 fn drain_encoder<B: Body<Data = Bytes, Error = Status> + Unpin>(mut body: B, max_polls: usize, ev: &mut Vec<Value>) -> (Vec<u8>, Option<http::HeaderMap>) {
-    let waker = std::task::Waker::noop();
-    let mut cx = Context::from_waker(waker);
+    let cw = Arc::new(CountWake(AtomicUsize::new(0)));
+    let waker = std::task::Waker::from(cw.clone());
+    let mut cx = Context::from_waker(&waker);
     let mut wire = vec![];
     let mut first_trailers = None;
     let mut nones = 0;
     let mut polls = 0;
     while polls < max_polls && nones < 3 {
         polls += 1;
+        let w0 = cw.0.load(Ordering::SeqCst);
         let r = Pin::new(&mut body).poll_frame(&mut cx);
         let eos = body.is_end_stream();
         match r {
-            Poll::Pending => ev.push(json!({"e":"enc","r":"pending","eos":eos})),
+            Poll::Pending => ev.push(json!({"e":"enc","r":"pending","eos":eos,"woken": cw.0.load(Ordering::SeqCst) > w0})),
             Poll::Ready(None) => { nones += 1; ev.push(json!({"e":"enc","r":"none","eos":eos})); }
             Poll::Ready(Some(Err(s))) => ev.push(json!({"e":"enc","r":"err","st":status_json(&s),"eos":eos})),
             Poll::Ready(Some(Ok(f))) => {
@@ -164,18 +172,20 @@ pub fn frames_hint(wire: &[u8]) -> Value {
 
 fn decode_generic<T: 'static>(mut s: Streaming<T>, show: impl Fn(&T) -> Value, extra: usize, max_polls: usize, body_after: Arc<AtomicUsize>, ev: &mut Vec<Value>) {
     use tokio_stream::Stream;
-    let waker = std::task::Waker::noop();
-    let mut cx = Context::from_waker(waker);
+    let cw = Arc::new(CountWake(AtomicUsize::new(0)));
+    let waker = std::task::Waker::from(cw.clone());
+    let mut cx = Context::from_waker(&waker);
     let mut terminal_seen = 0usize;
     let mut polls = 0usize;
     let mut pend_run = 0usize;
     while polls < max_polls {
         polls += 1;
         shim::alloc_window_start();
+        let w0 = cw.0.load(Ordering::SeqCst);
         let r = Pin::new(&mut s).poll_next(&mut cx);
         let mx = shim::alloc_window_max();
         match r {
-            Poll::Pending => { pend_run += 1; ev.push(json!({"e":"dec","r":"pending"})); if pend_run > 64 { ev.push(json!({"e":"dec","r":"stuck"})); break; } continue; }
+            Poll::Pending => { pend_run += 1; ev.push(json!({"e":"dec","r":"pending","woken": cw.0.load(Ordering::SeqCst) > w0})); if pend_run > 64 { ev.push(json!({"e":"dec","r":"stuck"})); break; } continue; }
             Poll::Ready(Some(Ok(m))) => ev.push(json!({"e":"dec","r":"msg","m":show(&m),"alloc":mx as u64})),
             Poll::Ready(Some(Err(e))) => { terminal_seen += 1; ev.push(json!({"e":"dec","r":"err","st":status_json(&e),"alloc":mx as u64})); }
             Poll::Ready(None) => { terminal_seen += 1; ev.push(json!({"e":"dec","r":"end"})); }
@@ -315,6 +325,8 @@ pub fn gen(seed: u64, tier: &str) -> Vec<Value> {
         let ncuts = rng.gen_range(0..6);
         let mut cuts: Vec<usize> = (0..ncuts).map(|_| [1usize, 2, 3, 4, 5, 6, 7, 9, 64, 1000][rng.gen_range(0..10)]).collect();
         if sizes.iter().any(|&s| s >= 1000) { cuts.push(4096); }
+        // dribble: the whole body in 1..3-byte chunks (hundreds of ready frames inside one message)
+        if i % 9 == 4 { cuts = vec![[1usize, 1, 2, 3][rng.gen_range(0..4)]]; }
         let body_pend: Vec<usize> = (0..rng.gen_range(0..4)).map(|_| rng.gen_range(0..8)).collect();
         out.push(json!({"kind":"rt","role":role,"enc":enc,"override": role == "server" && rng.gen_bool(0.2),
             "codec": if prost {"prost"} else {"raw"}, "bufsz":bufsz,"yield":yld,"limit_enc":-1,"limit_dec":-1,
@@ -378,6 +390,20 @@ pub fn gen_hostile(seed: u64, tier: &str) -> Vec<Value> {
             "limit_enc": -1, "limit_dec": (*[-1i64, -1, 7, 64].get(rng.gen_range(0..4)).unwrap()), "items": [], "wire": bytes_json(&wire),
             "cuts": rand_cuts(&mut rng), "body_pend": (0..rng.gen_range(0..3)).map(|_| rng.gen_range(0..6)).collect::<Vec<usize>>(),
             "tail": tail, "tail_at": rng.gen_range(0..5), "extra_polls": 4}));
+    }
+    // dribble: long messages (valid, truncated, followed by an illegal flag) delivered in 1..3-byte frames that are all ready
+    // at once - several hundred frames inside one message
+    for j in 0..(if tier == "thorough" { 60 } else { 12 }) {
+        let sz = [300usize, 600, 1500][j % 3];
+        let mut wire = frame(0, &[1, 2, 3]);
+        wire.extend(frame(0, &rand_bytes(&mut rng, sz, false)));
+        let class = match j % 4 { 0 | 1 => "dribble_valid", 2 => { let cut = rng.gen_range(20..wire.len()); wire.truncate(cut); "dribble_truncated" } _ => { wire.extend(frame(7, &[1])); "dribble_bad_flag" } };
+        let role = if j % 2 == 0 { "server" } else { "client" };
+        let cut = [1usize, 1, 2, 3][j % 4];
+        let bp: Vec<usize> = if j % 5 == 0 { vec![100] } else { vec![] };
+        out.push(json!({"kind":"dec","class":class,"role":role,"dec_enc":"identity","enc":"identity","override":false,"codec":"raw","bufsz":64,"yield":32768,
+            "limit_enc": -1, "limit_dec": -1, "items": [], "wire": bytes_json(&wire), "cuts": [cut], "body_pend": bp,
+            "tail": if role == "server" { "trailers_ok" } else { "none" }, "tail_at": 0, "extra_polls": 4}));
     }
     out
 }
